@@ -106,6 +106,13 @@ def templates(tier="quick"):
                 {"op": "edit", "path": "src", "label": "edit src"}]
         add("obsolete_discovered_" + kind, [v0, v2], ["obj", "exe", "hdr"], extra_ops=ops2, init=[0, 1], depth=2, tags=["discovered"])
 
+    # a depfile on disk that names its own target among the dependencies (plain depfile mode: read by every scan of a clean
+    # statement), alone and next to an -MP style line of the same name
+    v0 = Variant("v0", [Stmt("obj", ex=["src"], hidden=["hdr"], depfile=True), Stmt("exe", ex=["obj"])])
+    for nm, text in (("plain", "obj: src obj hdr\n"), ("with_a_target_line_of_its_own", "obj: src hdr obj\nhdr:\n")):
+        ops = [ninja_op(j=1), {"op": "write", "path": "obj.d", "content": text, "label": "obj.d:=" + repr(text)}]
+        add("depfile_names_its_own_target_" + nm, [v0], ["obj", "exe"], extra_ops=ops, init=[0, 1], depth=1, tags=["discovered"])
+
     # dyndep-closed cycle: the dyndep file adds an input that depends on the statement itself
     dd = dyndep_text([("out", [], ["circ"], False)])
     stm = [Stmt("dd", ex=["dd.in"], copy=True), Stmt("out", ex=["in"], oo=["dd"], dyndep="dd", extra_reads=["circ"]),
